@@ -7,7 +7,7 @@ package ptracer
 
 //@ global ptracer.pageSize props C15: invariant pageSize >= 1 && pageSize <= 1073741824
 
-//@ func ptracer.init#1
+//@ func ptracer.init#1 props C15
 //@   arith bv
 //@   assigns pageSize
 //@   ensures pageSize >= 1 && pageSize <= 1073741824
@@ -58,7 +58,7 @@ package ptracer
 //@   loop 0: invariant sarr(buff) == sarr(old(buff)) && soff(buff) >= soff(old(buff)) && soff(buff) + len(buff) <= soff(old(buff)) + old(len(buff))
 //@   loop 0: decreases len(buff)
 
-//@ func ptracer.(*Context).GetString props C15
+//@ func ptracer.(*Context).GetString props C02 C15
 //@   arith int
 //@   assigns UseVMReadv
 //@   ensures len(result) >= 0
@@ -116,7 +116,7 @@ package ptracer
 //@   assumed "logging only"
 //@   pure
 
-//@ func ptracer.getTrapContext
+//@ func ptracer.getTrapContext props C15
 //@   arith bv
 //@   assigns nothing
 //@   ensures result.1 == nil ==> result.0 != nil && fresh(result.0) && result.0.Pid == pid
@@ -137,7 +137,7 @@ package ptracer
 //@   callsite skipSyscall: assert @C03 c.Pid == pid
 //@   ensures T.setregs_count == old(T.setregs_count) || (T.setregs_count == old(T.setregs_count) + 1 && T.setregs_orig_rax == 18446744073709551615 && T.setregs_pid == pid)
 
-//@ func ptracer.(*Tracer).checkUsage props C08
+//@ func ptracer.(*Tracer).checkUsage props C08 C09
 //@   arith bv
 //@   assigns nothing
 //@   ensures int64(result.0) == rusage.Utime.Sec * 1000000000 + rusage.Utime.Usec * 1000
